@@ -49,7 +49,8 @@ SIG_ALIAS = "C15/set-value-automatic-alias-kept-ParserException"
 
 
 # ---- expression descriptors ------------------------------------------------------------------------
-# ('col', name, 'T'|'F')   T: table['name'], F: F.col('name')
+# ('col', name, 'T'|'F'|'P'|'C')   T: table['name'], F: F.col('name'), P: F.col('<physical table>.name'),
+#                                  C: F.col('<cte name>.name')   (P, C: outside the property's wording, inside the theorem's domain)
 # ('lit', v) ('raw', v) ('bin', Op, a, b) ('not', a) ('neg', a) ('isnull', a) ('if', c, t, e) ('coalesce', a, b)
 
 def tup(x):
@@ -62,7 +63,7 @@ class ExprGen:
         self.r, self.style = rnd, style
 
     def col(self, name):
-        q = self.style if self.style in "TF" else self.r.choice("TF")
+        q = self.style if self.style in "TF" else self.r.choice("TFPC" if self.style == "X" else "TF")
         return ("col", name, q)
 
     def int_e(self, depth=2):
@@ -129,10 +130,17 @@ def restyle(e, q):
     return tuple(restyle(x, q) if isinstance(x, tuple) else x for x in e)
 
 
+NAMES = {"phys": None, "cte": None}    # names of the table under test (set by run_history)
+
+
 def build(e, t, F):
     """the sqlframe Column a user would write"""
     k = e[0]
     if k == "col":
+        if e[2] == "P":
+            return F.col(f"{NAMES['phys']}.{e[1]}")
+        if e[2] == "C":
+            return F.col(f"{NAMES['cte']}.{e[1]}")
         return t[e[1]] if e[2] == "T" else F.col(e[1])
     if k == "lit":
         return F.lit(e[1])
@@ -166,7 +174,8 @@ def e_q(e, branch, alias=None) -> str:
     """Coq qexpr term of the user-level expression; `alias` = automatic top-level alias of a function-built Column"""
     k = e[0]
     if k == "col":
-        t = f"(QCol {optlit(strlit(branch)) if e[2] == 'T' else 'None'} {strlit(e[1])})"
+        q = {"T": branch, "F": None, "P": NAMES["phys"], "C": NAMES["cte"]}[e[2]]
+        t = f"(QCol {optlit(None if q is None else strlit(q))} {strlit(e[1])})"
     elif k in ("lit", "raw"):
         t = f"(QLit {rel.val_coq(e[1])})"
     elif k == "bin":
@@ -223,7 +232,7 @@ def e_sql(e, top=False) -> str:
 
 def e_show(e) -> str:
     if e[0] == "col":
-        return f"t['{e[1]}']" if e[2] == "T" else f"col('{e[1]}')"
+        return {"T": f"t['{e[1]}']", "F": f"col('{e[1]}')", "P": f"col('<table>.{e[1]}')", "C": f"col('<cte>.{e[1]}')"}[e[2]]
     if e[0] == "raw":
         return repr(e[1])
     if e[0] == "lit":
@@ -255,7 +264,7 @@ def gen_where(r, style=None):
             e = g.bool_e(2)
             if where_kind_ok_for_sql(e):
                 return {"kind": "sql", "e": e}
-    st = style or r.choice(["T", "T", "F", "M"])
+    st = style or r.choice(["T", "T", "T", "F", "F", "M", "M", "X"])
     g = ExprGen(r, st)
     if k < 0.47:
         return {"kind": "cols", "items": [g.bool_e(1) for _ in range(r.randint(2, 3))], "as_list": True}
@@ -578,6 +587,7 @@ def run_history(impl: Impl, rows, calls, order):
     try:
         t = impl.session.table(name)
         cte = t._convert_leaf_to_cte().latest_cte_name
+        NAMES["phys"], NAMES["cte"] = name, cte
         st = f"(mkT {strlit(name)} {strlit(cte)} {strlit(t.branch_id)})"
         sequential = order == list(range(len(calls)))
         built = []
@@ -714,6 +724,10 @@ def corpus():
         [{"kind": "delete", "where": {"kind": "cols", "items": [("bin", "Eq", T("a"), ("lit", 1)), ("bin", "Eq", Fc("b"), ("lit", 2))], "as_list": True}}],
         [{"kind": "update", "set": [["F", "s", ("lit", "zz")], ["str", "f", ("isnull", T("a"))]],
           "where": {"kind": "cols", "items": [("not", T("f"))], "as_list": False}}],
+        [{"kind": "delete", "where": {"kind": "cols", "items": [("bin", "Eq", ("col", "a", "P"), ("col", "b", "C"))], "as_list": False}}],
+        [{"kind": "update", "set": [["str", "a", ("col", "b", "C")]],
+          "where": {"kind": "cols", "items": [("isnull", ("col", "s", "P"))], "as_list": False}}],
+        [{"kind": "update", "set": [["str", "a", ("col", "b", "P")]], "where": {"kind": "none"}}],
     ]
 
 
@@ -754,7 +768,7 @@ def make_histories(ctx):
                     hs.append((tn, [call], [0]))
                     n_exh += 1
     # random histories of up to 4 statements
-    n_rand = 330 if ctx.tier == "quick" else 4000
+    n_rand = 280 if ctx.tier == "quick" else 4000
     for _ in range(n_rand):
         n = r.choice([1, 1, 2, 2, 3, 4])
         calls = [gen_call(r) for _ in range(n)]
